@@ -12,13 +12,16 @@ FailingCli == {"cli_query_missing_file", "cli_dist_bad_params", "cli_query_forei
 \* session does afterwards
 LibCmds == {"lib_load", "lib_edit", "lib_add", "lib_delete", "lib_flush", "lib_commit", "lib_begin_block", "lib_rollback",
             "lib_query", "lib_close", "lib_read_sigs", "lib_other_rw_reader", "lib_other_ro_reader", "lib_tree_walk",
-            "lib_bulk_update", "lib_execute_update"}
+            "lib_bulk_update", "lib_execute_update", "lib_load_ctx", "lib_load_ctx_engine_first"}
+\* the ways of obtaining the default session: ReferenceDatabase.load_from_dir, and the command line's context object
+\* (CLIContext.get_database()) with its lazily created engine / session maker touched in either order
+LoadCmds == {"lib_load", "lib_load_ctx", "lib_load_ctx_engine_first"}
 \* statement-level writes issued through the default session (Query.update(), session.execute(update(...))): they bypass the
 \* unit of work, so neither the no-op flush nor the raising commit sees them; they go into the connection's open transaction,
 \* which nothing can commit, and are discarded by rollback / close.  While that transaction is open SQLite keeps a rollback
 \* journal next to the genome file.
 StmtCmds == {"lib_bulk_update", "lib_execute_update"}
-EndTxn == {"lib_rollback", "lib_close", "lib_load"}
+EndTxn == {"lib_rollback", "lib_close", "lib_load", "lib_load_ctx", "lib_load_ctx_engine_first"}
 \* is a statement-level write still open after step i of the command sequence cmds?
 StmtOpen(cmds, i) == \E j \in 1..i : cmds[j] \in StmtCmds /\ \A m \in (j + 1)..i : cmds[m] \notin EndTxn
 Cmds == CliCmds \cup LibCmds
@@ -30,7 +33,7 @@ PendingAfter(c, p) ==
   CASE c = "lib_edit" -> {[p EXCEPT !.dirty = TRUE]}
     [] c = "lib_add" -> {[p EXCEPT !.new = TRUE]}
     [] c = "lib_delete" -> {[p EXCEPT !.deleted = TRUE]}
-    [] c \in {"lib_rollback", "lib_close", "lib_load"} -> {NoPending}
+    [] c \in {"lib_rollback", "lib_close"} \cup {"lib_load", "lib_load_ctx", "lib_load_ctx_engine_first"} -> {NoPending}
     [] c = "lib_begin_block" -> {p, NoPending}
     [] OTHER -> {p}
 
